@@ -115,14 +115,25 @@ package txt
 // error.go: an error refers to an existing line of its block, and its position and length stay within
 // that line (at most one character past its end). This is the statement of property C10, imposed on every creation.
 
+//@ type err invariant typeis(self.context, *block) && 0 <= self.line && self.line < len(self.context.(*block).lines) && 0 <= self.position && 0 <= self.length && self.position + self.length <= runelen(self.context.(*block).lines[self.line].Text) + 1
+
 //@ func NewError
 //@ requires typeis(b, *block) && 0 <= line && line < len(b.(*block).lines)
 //@ requires 0 <= start && 0 <= length && start + length <= runelen(b.(*block).lines[line].Text) + 1
 //@ ensures typeis(result, *err) && fresh(result) && result.(*err).context == b && result.(*err).line == line && result.(*err).position == start && result.(*err).length == length
 
+// By the invariant of err, the quoted line exists and position/length are displayable.
 //@ func (*err).LineText
-//@ requires typeis(e.context, *block) && 0 <= e.line && e.line < len(e.context.(*block).lines)
+//@ ensures result == e.context.(*block).lines[e.line].Text
 
 //@ func (*err).LineNumber
-//@ requires typeis(e.context, *block)
 //@ ensures result == e.context.(*block).precedingLineCount + e.line + 1
+
+//@ func (*err).Position
+//@ ensures result == e.position && result >= 0
+
+//@ func (*err).Length
+//@ ensures result == e.length && result >= 0
+
+//@ func (*err).Column
+//@ ensures result == e.position + 1
